@@ -318,6 +318,9 @@ func (m *Machine) runPath(fn *ssa.Function) {
 	case "unwind":
 		m.res.Inconclusive = appendUniq(m.res.Inconclusive, "unwinding bound reached: "+endMsg)
 		m.report(&Finding{Kind: "unwind", ID: "unwind", Site: endMsg, Msg: "loop exceeded the unwinding bound"})
+	case "deadlock":
+		// a goroutine waits for something that can never happen: the request stalls
+		m.report(&Finding{Kind: "deadlock", ID: "deadlock", Site: endMsg, Msg: "goroutine blocked forever: " + endMsg})
 	case "budget":
 		m.res.Inconclusive = appendUniq(m.res.Inconclusive, "step budget: "+endMsg)
 	case "cut":
